@@ -30,7 +30,7 @@ pub const REGISTRY: &[(&str, fn(&Reporter), &str)] = &[("C01", c01::check, "expl
 pub fn replay(v: &serde_json::Value) -> i32 {
 	let prop = v.get("property").and_then(|p| p.as_str()).unwrap_or("");
 	let r = &v["replay"];
-	let sched_props = ["C01", "C03", "C04", "C05", "C06", "C09", "C10", "C11"];
+	let sched_props = ["C01", "C03", "C04", "C05", "C06", "C07", "C09", "C10", "C11"];
 	if r.get("engine").and_then(|e| e.as_str()) == Some("SCHED") && sched_props.contains(&prop) {
 		let name = r["scenario"].as_str().unwrap_or("");
 		let choices: Vec<usize> = r["choices"].as_array().map(|a| a.iter().filter_map(|x| x.as_u64().map(|n| n as usize)).collect()).unwrap_or_default();
@@ -43,6 +43,7 @@ pub fn replay(v: &serde_json::Value) -> i32 {
 			"C10" => c10::dyn_scenarios(),
 			"C11" => c11::dyn_scenarios(),
 			"C05" => c05::dyn_scenarios(),
+			"C07" => c07::dyn_scenarios(),
 			_ => vec![],
 		};
 		let Some(s) = scen.iter().find(|s| s.dyn_name() == name) else {
@@ -86,6 +87,10 @@ pub fn replay(v: &serde_json::Value) -> i32 {
 		let mut local = crate::report::Local::default();
 		c01::run_case(&rep, &mut local, &rt, &mut http, &ws, "replay", &msg, batch, "");
 		let want = v["signature"].as_str().unwrap_or("");
+		// cases found on the SRV-TCP leg (Server::start over loopback sockets, with or without RPC middleware)
+		if want.starts_with("tcp") {
+			c01::tcp_case(&rep, &mut local, &rt, "replay", &msg, batch, want.starts_with("tcp+middleware"));
+		}
 		println!("message: {:?}\nbatch config: {batch:?}", String::from_utf8_lossy(&msg));
 		let got = rep.reported();
 		for (sig, what) in &got {
